@@ -89,7 +89,7 @@ PROPS = {
                 pending=['which of the mentioned objects a mutator changes (its receiver; the list c[k] for c[k] += ..) is stated per table entry (InvSep.mod_*), over whole runs as: only top scopes and objects some value mentions (step_sep, unmentioned_object_unchanged); the mutator-free case changes nothing (quiet_program_changes_no_host_object)']),
     'C14': dict(obligations=lambda: P('SqProps.C14') + T('SqTie.Consts', 'cast_dict_keys_tie'),
                 slices=['ops'], monitors=['c14'],
-                pending=['the value copies made by `c[k] = v` (deep copy before the store) composed with ops_refine_list; negative steps other than -1 in `[::k]`; dict and list refinement over all operation sequences, slices with bounds (slice_is_contiguous_segment), `[::k]` for every k > 0 (slice_with_positive_step_takes_every_kth, step_slice_read_returns_new_list), k = -1 (reverse) and k = 0 (refused) are proved']),
+                pending=['the value copies made by `c[k] = v` (deep copy before the store) composed with ops_refine_list; dict and list refinement over all operation sequences, slices with bounds (slice_is_contiguous_segment), and `[::k]` for every integer k (k > 0: slice_with_positive_step_takes_every_kth; k < 0: slice_with_negative_step_takes_every_kth_from_the_end; k = 0 refused) are proved']),
     'C15': dict(obligations=lambda: P('SqProps.C15') + TIE_LEX + TIE_GRAM + TIE_TOK,
                 slices=['layout'], monitors=['c15'],
                 pending=['trailing commas / redundant parentheses / the three call spellings at the CHARACTER level (proved at the token level through parse_iff); at the character level: extra blanks between tokens, comments at line ends, line breaks (LF, CRLF) inside brackets are proved over whole texts']),
